@@ -32,6 +32,7 @@ def run(prog, rep):
     rep.rule('R6.3', 'time_point/duration -> CBinTimestamp with sub-second period: the seconds component is rounded toward minus infinity '
                      '(floor), so the nanoseconds remainder is 0..999999999', floor=2)
     rep.rule('R6.4', 'multi-byte scalars reach the output only as big-endian (EMITBE through NativeToBigEndian), never as native-order raw bytes', floor=2 * 40)
+    check_scope_headers(prog, rep)
     T = W.writer_tables(prog)
 
     # ------------------------------------------------------------------ R6.1 / R6.4
@@ -372,3 +373,52 @@ def check_floor_split(prog, rep, rule='R6.3'):
         raise AnalysisBroken(rule + ': no sub-second instantiation of To(time_point|duration -> CBinTimestamp) in the analysed program')
 
 
+
+
+def check_scope_headers(prog, rep):
+    """R6.7: every Open{Array,Object,Binary}Scope of the MsgPack write scopes (root, array element, keyed object member) emits the header of
+    its own family - BeginArray / BeginMap / BeginBinary - with the size it was given (a helper called from the method is followed)."""
+    rep.rule('R6.7', 'MsgPack write scopes: OpenArrayScope -> BeginArray(size), OpenObjectScope -> BeginMap(size), OpenBinaryScope -> BeginBinary(size) '
+                     'in the root, array and object scope', floor=9)
+    want = {'OpenArrayScope': 'BeginArray', 'OpenObjectScope': 'BeginMap', 'OpenBinaryScope': 'BeginBinary'}
+    n = 0
+    seen = set()
+    for f in sorted(prog.funcs.values(), key=lambda g: g.id):
+        if f.body is None or f.name not in want or 'MsgPackWrite' not in (f.cls or ''):
+            continue
+        key = (strip_targs(f.cls), f.name, len(f.params))
+        if key in seen:
+            continue
+        seen.add(key)
+        rep.touch(f)
+        n += 1
+        calls = []
+
+        def collect(g, argmap, depth):
+            for x in g.walk():
+                if x['k'] == 'CXXMemberCallExpr':
+                    c = g.callee(x) or {}
+                    if c.get('n', '').startswith('Begin') and 'MsgPackWriter' in c.get('q', ''):
+                        a = strip(x['c'][1]) if len(x['c']) > 1 else None
+                        d = a.get('d') if a is not None and a['k'] == 'DeclRefExpr' else None
+                        calls.append((c['n'], argmap.get(d, d)))
+                    elif c.get('repo') and c.get('cls') and strip_targs(c['cls']) == strip_targs(f.cls) and depth < 2:
+                        h = prog.funcs.get(c.get('id'))
+                        if h is not None:
+                            am = {}
+                            for i, p_ in enumerate(h.params):
+                                if i + 1 < len(x['c']):
+                                    a = strip(x['c'][i + 1])
+                                    if a is not None and a['k'] == 'DeclRefExpr':
+                                        am[p_['d']] = argmap.get(a.get('d'), a.get('d'))
+                            collect(h, am, depth + 1)
+        collect(f, {}, 0)
+        size_params = [p_['d'] for p_ in f.params if f.tu['types'][p_['t']].replace('const ', '').strip() in ('unsigned long', 'size_t', 'std::size_t')]
+        site = '%s::%s/%d' % (strip_targs(f.cls).rsplit('::', 1)[-1], f.name, len(f.params))
+        if len(calls) == 1 and calls[0][0] == want[f.name] and (calls[0][1] in size_params):
+            rep.ok('R6.7', site, sample={'scope': site, 'header': calls[0][0]})
+        else:
+            rep.finding('R6.7', site, f.loc(), '%s writes the header with %s, expected exactly one %s(<the size it was given>): the value is written under the '
+                        'wrong MessagePack family (e.g. a byte container as an array of integers)' % (site, ['%s(%s)' % (c, 'size' if a in size_params else '?') for c, a in calls] or 'nothing', want[f.name]), func=f.id)
+    if n < 9:
+        raise AnalysisBroken('R6.7: expected the 9 Open*Scope methods of the three MsgPack write scopes, found %d' % n)
